@@ -38,6 +38,8 @@ type Case struct {
 	// anisotropic copy: x is stretched by 2^Ax, y by 2^Ay on top of the above (at most one of them > 0)
 	Ax int `json:"ax"`
 	Ay int `json:"ay"`
+	// entry point: "" = BowyerWatson, "constrained" = ConstrainedBowyerWatson without constraints
+	Entry string `json:"entry,omitempty"`
 }
 
 type line struct {
@@ -85,6 +87,9 @@ func runOne(c Case) (line, error) {
 	if c.Mul == 0 {
 		c.Mul = 1
 	}
+	if c.Entry != "" && c.Entry != "constrained" {
+		return line{}, fmt.Errorf("unknown entry point %q", c.Entry)
+	}
 	if c.Ax < 0 || c.Ay < 0 || c.Ax > 10 || c.Ay > 10 || (c.Ax > 0 && c.Ay > 0) {
 		return line{}, fmt.Errorf("stretch exponents %d, %d outside what the judge handles", c.Ax, c.Ay)
 	}
@@ -110,7 +115,11 @@ func runOne(c Case) (line, error) {
 			}
 		}()
 		// len == cap: the function appends its super-triangle to the slice it is given
-		mesh = triangulation.BowyerWatson(in[:len(in):len(in)])
+		if c.Entry == "constrained" {
+			mesh = triangulation.ConstrainedBowyerWatson(in[:len(in):len(in)], nil)
+		} else {
+			mesh = triangulation.BowyerWatson(in[:len(in):len(in)])
+		}
 	}()
 	if ln.St != "OK" {
 		return ln, nil
